@@ -720,3 +720,81 @@ Proof.
   eexists. split; [vm_compute; reflexivity|].
   rewrite <- valid_csr_b_spec. vm_compute. discriminate.
 Qed.
+
+(* ------------------------------------------------- write_pixels: column lengths (T0) *)
+
+Lemma write_chunk_exact col acc data :
+  (col = acc \/ acc = []) ->
+  write_chunk (col, zlen acc) data = (acc ++ data, zlen (acc ++ data)).
+Proof.
+  intros H. unfold write_chunk. f_equal.
+  - unfold write_at, resize, zlen. destruct H as [->| ->].
+    + replace (Z.to_nat (Z.of_nat (length acc) + Z.of_nat (length data))) with (length acc + length data)%nat by lia.
+      rewrite !Nat2Z.id.
+      rewrite (firstn_all2 (n := (length acc + length data)%nat) acc) by lia.
+      replace (length acc + length data - length acc)%nat with (length data) by lia.
+      rewrite firstn_app, firstn_all, Nat.sub_diag. cbn [firstn]. rewrite app_nil_r.
+      rewrite skipn_all2; [now rewrite app_nil_r|]. rewrite app_length, repeat_length. lia.
+    + cbn [length app]. rewrite Nat2Z.id. cbn [firstn app].
+      rewrite skipn_all2; [now rewrite app_nil_r|].
+      rewrite app_length, firstn_length, repeat_length. cbn. lia.
+  - unfold zlen. rewrite app_length. lia.
+Qed.
+
+Lemma fold_write_chunks chunks : forall col acc,
+  (col = acc \/ acc = []) ->
+  fold_left write_chunk chunks (col, zlen acc) =
+  match chunks with
+  | [] => (col, zlen acc)
+  | _ => (acc ++ concat chunks, zlen (acc ++ concat chunks))
+  end.
+Proof.
+  induction chunks as [|d t IH]; intros col acc H; [reflexivity|].
+  cbn [fold_left]. rewrite write_chunk_exact by exact H.
+  rewrite (IH (acc ++ d) (acc ++ d)) by (now left).
+  destruct t; cbn [concat]; rewrite ?app_nil_r, ?app_assoc; reflexivity.
+Qed.
+
+(** pixel columns: whatever the preallocated size and however the stream is cut into chunks
+    (no chunk at all and empty chunks included), the stored column is the concatenation of the
+    chunks and its length is the returned nnz *)
+Theorem write_pixels_col_spec init chunks :
+  write_pixels_col init chunks = (concat chunks, zlen (concat chunks)).
+Proof.
+  unfold write_pixels_col.
+  change 0 with (zlen (@nil Z)) at 2.
+  rewrite (fold_write_chunks chunks _ []) by (now right).
+  destruct chunks as [|d t]; [reflexivity|].
+  cbn [app]. destruct (zlen (concat (d :: t)) =? 0) eqn:E; [|reflexivity].
+  assert (H : concat (d :: t) = []) by (unfold zlen in E; destruct (concat (d :: t)); [reflexivity|cbn [length] in E; lia]).
+  now rewrite H.
+Qed.
+
+(** the code before the repair of defect D21 (no final truncation): an empty stream left the
+    preallocated rows in place *)
+Theorem write_pixels_col_old_refuted :
+  exists init chunks, write_pixels_col_old init chunks <> (concat chunks, zlen (concat chunks)).
+Proof. exists 3, []. vm_compute. discriminate. Qed.
+
+Lemma concat_map_map {A B} (f : A -> B) (l : list (list A)) : concat (map (map f) l) = map f (concat l).
+Proof. induction l as [|x t IH]; [reflexivity|]. cbn [map concat]. now rewrite map_app, IH. Qed.
+
+Lemma sumZ_app l1 l2 : sumZ (l1 ++ l2) = sumZ l1 + sumZ l2.
+Proof.
+  induction l1 as [|x t IH]; [reflexivity|].
+  change (sumZ ((x :: t) ++ l2)) with (x + sumZ (t ++ l2)). change (sumZ (x :: t)) with (x + sumZ t). lia.
+Qed.
+
+Lemma sumZ_concat (f : pixel -> Z) chunks :
+  sumZ (map (fun ch => sumZ (map f ch)) chunks) = sumZ (map f (concat chunks)).
+Proof.
+  induction chunks as [|c t IH]; [reflexivity|]. cbn [map concat]. rewrite map_app, sumZ_app, <- IH. reflexivity.
+Qed.
+
+(** create() fed chunk by chunk stores exactly what it stores for the concatenated stream *)
+Theorem create_chunked_eq n_chroms chroms chunks symm :
+  create_chunked n_chroms chroms chunks symm = create_model n_chroms chroms (concat chunks) symm.
+Proof.
+  unfold create_chunked, create_model. rewrite !write_pixels_col_spec.
+  rewrite !concat_map_map, !zlen_map, sumZ_concat. reflexivity.
+Qed.
